@@ -172,6 +172,38 @@ def run(res, tier, seed, widen=1):
         for t in own:
             pairs.append((g, t))
     _eq(res, pairs, "eq_string")
+    # neighbours: codes that differ in one group, or in two ADJACENT groups, by the smallest steps there are (absent <-> 0,
+    # +-1, 255 <-> absent) - where a packed / concatenated / truncated comparison key would collide; compared as objects
+    # (both orders) and through the string path, and hashed
+    near, npairs = [], []
+    for g in groups[:600]:
+        g2 = list(g)
+        ks = [rng.randrange(6)]
+        if rng.random() < 0.7 and ks[0] < 5:
+            ks.append(ks[0] + 1)
+        for k in ks:
+            opt = k in (0, 1, 4, 5)
+            v = g2[k]
+            choices = ([0, 255, 1] if v is None else [None] * (2 if opt else 0) + [(v + 1) % 256, (v - 1) % 256, v])
+            g2[k] = rng.choice(choices)
+        near.append((g, tuple(g2)))
+        npairs.append((g, fmt_reduced(tuple(g2))))
+    _eq(res, npairs, "eq_string_neighbours")
+    for g, g2 in near:
+        res.evaluations += 1
+        case = {"op": "obis.eq2", "groups": list(g), "other": list(g2)}
+        try:
+            a, b = _Obis(g), _Obis(g2)
+            obs = (a == b, b == a, hash(a) == hash(b))
+        except Exception as ex:  # noqa
+            res.prop_failure(case, f"comparison raised {type(ex).__name__}", "eq_neighbours")
+            continue
+        if obs[0] != (g == g2) or obs[1] != (g == g2):
+            res.prop_failure(case, f"Obis{g} == Obis{g2} is {obs[0]} / {obs[1]} but the groups are {'equal' if g == g2 else 'different'}", "eq_neighbours")
+        elif g == g2 and not obs[2]:
+            res.prop_failure(case, "equal objects hash differently", "eq_neighbours")
+        res.count("eq_neighbours")
+        res.nontriv(("near", g, g2))
 
 
 def search(res, tier, seed):
@@ -184,6 +216,16 @@ def replay(payload, res):
         _parse(res, [c["s"]], "replay")
     elif c["op"] == "obis.fmt":
         _fmt(res, [tuple(c["groups"])], "replay")
+    elif c["op"] == "obis.eq2":
+        from han.obis import Obis
+        g, g2 = tuple(c["groups"]), tuple(c["other"])
+        try:
+            obs = (Obis(g) == Obis(g2), Obis(g2) == Obis(g))
+        except Exception as ex:  # noqa
+            obs = (type(ex).__name__,)
+        print("groups", g, g2, "compare as", obs)
+        if any(o != (g == g2) for o in obs):
+            res.prop_failure(c, f"objects compare {obs}, groups are {'equal' if g == g2 else 'different'}", "replay")
     else:
         _eq(res, [(tuple(c["groups"]), c["s"])], "replay")
     for f in res.prop_failures:
